@@ -491,6 +491,15 @@ func genFacts() {
 	})
 	keepFn := strings.Contains(kvs.text(gh.Body), "if ls, ok := link.(string); ok && !removed { delete(candidateBlocks, ls) }")
 	f["vacuumKeepsReachable"] = leanBool(keepOK && loopOK && keepFn)
+	ght := kvs.text(gh.Body)
+	f["vacuumKeepsListedCurrent"] = leanBool(strings.Contains(ght, "current, err := s.listRoots(ctx) if err != nil { return nil, nil, fmt.Errorf(\"list roots: %w\", err) } for _, name := range current { if _, ok := rootCacheByName[name]; ok { continue }") &&
+		strings.Contains(ght, "kept, err := crdt.Load(ctx, s.crdt.Config, &name, *root) if err != nil { return nil, nil, err } if err := keep(kept.Mast); err != nil { return nil, nil, err } } nodes = make([]string, 0, len(candidateBlocks))"))
+	vacT := vc.text(vc.fn("Vacuum").Body)
+	f["vacuumRepointsSnapshot"] = leanBool(strings.Contains(vacT, "table.Tree.Root = db db = nil if table.txStart != nil { snapshot, err := table.Tree.Root.Clone(ctx) if err != nil { return fmt.Errorf(\"clone: %w\", err) } table.txStart.Cancel() table.txStart = snapshot } err = kv.DeleteHistoricVersions(ctx, table.Tree.Root, beforeTime)"))
+	rtT := kvs.text(kvs.fn("DB.RemoveTombstones").Body)
+	f["purgeCutoffClamped"] = leanBool(strings.Contains(rtT, "cutoff := before.UnixNano() if before.After(time.Unix(0, math.MaxInt64)) { cutoff = math.MaxInt64 } else if before.Before(time.Unix(0, math.MinInt64)) { cutoff = math.MinInt64 }"))
+	f["deletedNodesLeaveCache"] = leanBool(strings.Contains(kvs.text(kvs.fn("DeleteHistoricVersions").Body), "return fmt.Errorf(\"delete node: %s: %w\", l, err) } s.forgetNode(l) }") &&
+		kvs.text(kvs.fn("DB.forgetNode").Body) == "{ if c, ok := s.cfg.NodeCache.(interface{ Remove(key interface{}) }); ok { c.Remove(fmt.Sprintf(\"%s/%s\", s.persist.NodeURLPrefix(), link)) } }")
 	dh := kvs.fn("DeleteHistoricVersions")
 	var dord []string
 	for _, st := range dh.Body.List {
